@@ -2,9 +2,10 @@
    Only statements; each is closed by [exact] of a lemma from Proofs/Meta*.v.
    Oracles (text codecs, int(), UUID()) are explicit universally quantified arguments. *)
 From Coq Require Import String ZArith List Bool Lia.
-From DH Require Import Base.Plan Base.Layout Gen.Consts Gen.Layouts
+From DH Require Import Base.Plan Base.Layout Gen.Consts Gen.Layouts Gen.MetaVmdkTables
      Model.MetaCodec Model.MetaQcow2 Model.MetaVhdx Model.MetaVmdk Model.MetaHdrs Model.MetaHdd
-     Proofs.MetaCodec Proofs.MetaQcow2 Proofs.MetaVhdx Proofs.MetaVmdk Proofs.MetaHdd.
+     Proofs.MetaCodec Proofs.MetaQcow2 Proofs.MetaVhdx Proofs.MetaVmdk Proofs.MetaVmdkExt Proofs.MetaHdd
+     Proofs.MetaHdrs.
 Import ListNotations.
 Open Scope list_scope.
 Open Scope Z_scope.
@@ -122,6 +123,44 @@ Theorem C14_vhdx_region_lookup :
 Proof. exact region_get_unique. Qed.
 Print Assumptions C14_vhdx_region_lookup.
 
+(* VHDX parent locator: UTF-16-LE keys and values at their stored offsets, any number of entries,
+   Python dict semantics; enc16 / dec16 are the codec oracle *)
+Theorem C14_locator_roundtrip :
+  forall (enc16 : list Z -> list Z) (dec16 : list Z -> option (list Z)),
+  (forall s, dec16 (enc16 s) = Some s) ->
+  forall type_le kvs pre post o,
+  o = zlen pre -> zlen type_le = 16 -> zlen kvs < 2 ^ 16 ->
+  kvs_ok enc16 (vhdx_parent_locator_header_size + zlen kvs * vhdx_parent_locator_entry_size) kvs ->
+  parent_locator dec16 (buf_reader (pre ++ locator_render enc16 type_le kvs ++ post)) o
+  = Ok {| pl_type := uuid_of_bytes_le type_le; pl_entries := dict_of kvs |}.
+Proof. exact locator_roundtrip. Qed.
+Print Assumptions C14_locator_roundtrip.
+
+(* ---- Parallels HDS header: the v1 / v2 size union ---- *)
+Theorem C14_hds_open_v2 :
+  forall r post,
+  wf_vals hdd_v2_layout r -> vbytes r "m_Sig" = hdd_SIGNATURE_STRUCTURED_DISK_V2 ->
+  exists m, hds_open (buf_reader (encode_struct hdd_big_endian hdd_v2_layout r ++ post)) = Ok m /\
+            hm_v2 m = true /\
+            hm_size m = vint r "m_SizeInSectors_v2" * hdd_SECTOR_SIZE /\
+            hm_cluster_size m = vint r "m_Sectors" * hdd_SECTOR_SIZE /\
+            hm_data_offset m = vint r "m_FirstBlockOffset" /\
+            hm_in_use m = (vint r "m_DiskInUse" =? hdd_SIGNATURE_DISK_IN_USE).
+Proof. exact hds_open_v2. Qed.
+Print Assumptions C14_hds_open_v2.
+
+Theorem C14_hds_open_v1 :
+  forall r post,
+  wf_vals hdd_v1_layout r -> vbytes r "m_Sig" = hdd_SIGNATURE_STRUCTURED_DISK_V1 ->
+  exists m, hds_open (buf_reader (encode_struct hdd_big_endian hdd_v1_layout r ++ post)) = Ok m /\
+            hm_v2 m = false /\
+            hm_size m = vint r "m_SizeInSectors_v1" * hdd_SECTOR_SIZE /\
+            hm_cluster_size m = vint r "m_Sectors" * hdd_SECTOR_SIZE /\
+            hm_data_offset m = vint r "m_FirstBlockOffset" /\
+            hm_in_use m = (vint r "m_DiskInUse" =? hdd_SIGNATURE_DISK_IN_USE).
+Proof. exact hds_open_v1. Qed.
+Print Assumptions C14_hds_open_v1.
+
 (* ---- VMDK descriptor: key/value lines (quoted values with spaces, '=' and any characters) ---- *)
 Theorem C14_descriptor_kv_roundtrip :
   forall kvs d,
@@ -129,6 +168,42 @@ Theorem C14_descriptor_kv_roundtrip :
   parse_lines d (map render_kv kvs) = Ok (fold_left (fun d kv => d_put d (fst kv) (snd kv)) kvs d).
 Proof. exact descriptor_kv_roundtrip. Qed.
 Print Assumptions C14_descriptor_kv_roundtrip.
+
+(* extent lines: every access mode x every type of the generated grammar, any digits, any file name
+   (spaces, inner quotes, any code point but newline), with and without a start sector *)
+Theorem C14_extent_line_roundtrip :
+  forall am ty d0 ds f0 fn,
+  In am ACCESS_MODES -> In ty EXTENT_TYPES ->
+  is_digit d0 = true -> forallb is_digit ds = true ->
+  (f0 =? 10) = false -> forallb (in_cls CAny) fn = true ->
+  ext_fields (am ++ 32 :: (d0 :: ds) ++ 32 :: ty ++ 32 :: 34 :: (f0 :: fn) ++ [34])
+  = Some (am, dec_value 0 (d0 :: ds), ty, Some (strip is_quote (34 :: (f0 :: fn) ++ [34])), None, None, None).
+Proof. exact extent_line_roundtrip. Qed.
+Print Assumptions C14_extent_line_roundtrip.
+
+Theorem C14_extent_line_start_roundtrip :
+  forall am ty d0 ds f0 fn e0 es,
+  In am ACCESS_MODES -> In ty EXTENT_TYPES ->
+  is_digit d0 = true -> forallb is_digit ds = true ->
+  (f0 =? 10) = false -> forallb (in_cls CAny) fn = true ->
+  is_digit e0 = true -> forallb is_digit es = true ->
+  ext_fields (am ++ 32 :: (d0 :: ds) ++ 32 :: ty ++ 32 :: 34 :: (f0 :: fn) ++ 34 :: 32 :: e0 :: es)
+  = Some (am, dec_value 0 (d0 :: ds), ty, Some (strip is_quote (34 :: (f0 :: fn) ++ [34])),
+          Some (dec_value 0 (e0 :: es)), None, None).
+Proof. exact extent_line_start_roundtrip. Qed.
+Print Assumptions C14_extent_line_start_roundtrip.
+
+(* every extent type VMDK.__init__ dispatches on is a type the grammar accepts (both lists generated) *)
+Theorem C14_wired_extent_types_in_grammar :
+  forallb (fun t => existsb (list_eqb t) EXTENT_TYPES) (meta_wired_sparse_types ++ meta_wired_raw_types) = true.
+Proof. exact wired_types_in_grammar. Qed.
+Print Assumptions C14_wired_extent_types_in_grammar.
+
+(* the embedded descriptor of a sparse extent ends at the first NUL *)
+Theorem C14_embedded_descriptor_terminator :
+  forall text rest, forallb (fun c => negb (c =? 0)) text = true -> until_nul (text ++ 0 :: rest) = text.
+Proof. exact until_nul_text. Qed.
+Print Assumptions C14_embedded_descriptor_terminator.
 
 (* every extent type of the grammar is accepted with a quoted file name *)
 Theorem C14_extent_types_accepted :
